@@ -62,6 +62,8 @@ pub fn new_log() -> SharedLog {
 }
 
 pub struct RecResolver {
+    /// primitive kind this resolver pretends not to have ("rng" | "dh" | "cipher" | "hash"), for C12
+    pub lack: Option<String>,
     pub inner: BoxedCryptoResolver,
     pub ep: String,
     pub seed: u64,
@@ -73,6 +75,7 @@ pub struct RecResolver {
 impl RecResolver {
     pub fn new(backend: Backend, ep: &str, seed: u64, deterministic_rng: bool, log: SharedLog) -> Self {
         RecResolver {
+            lack: None,
             inner: backend.make(),
             ep: ep.to_string(),
             seed,
@@ -171,6 +174,9 @@ impl Cipher for RecCipher {
 
 impl CryptoResolver for RecResolver {
     fn resolve_rng(&self) -> Option<Box<dyn Random>> {
+        if self.lack.as_deref() == Some("rng") {
+            return None;
+        }
         let real = self.inner.resolve_rng()?;
         Some(Box::new(RecRng {
             ep: self.ep.clone(),
@@ -181,12 +187,21 @@ impl CryptoResolver for RecResolver {
         }))
     }
     fn resolve_dh(&self, choice: &DHChoice) -> Option<Box<dyn Dh>> {
+        if self.lack.as_deref() == Some("dh") {
+            return None;
+        }
         self.inner.resolve_dh(choice)
     }
     fn resolve_hash(&self, choice: &HashChoice) -> Option<Box<dyn Hash>> {
+        if self.lack.as_deref() == Some("hash") {
+            return None;
+        }
         self.inner.resolve_hash(choice)
     }
     fn resolve_cipher(&self, choice: &CipherChoice) -> Option<Box<dyn Cipher>> {
+        if self.lack.as_deref() == Some("cipher") {
+            return None;
+        }
         let inner = self.inner.resolve_cipher(choice)?;
         let cid = {
             let mut l = self.log.lock().unwrap();
